@@ -878,8 +878,21 @@ class Engine:
     def e_IfExp(self, node, fr):
         if getattr(fr, "is_spec", False):
             c = self.truth(self.eval(node.test, fr))
-            a = self.force(self.eval(node.body, fr))
-            b = self.force(self.eval(node.orelse, fr))
+            if is_true(c):
+                return self.eval(node.body, fr)
+            if is_false(c):
+                return self.eval(node.orelse, fr)
+            mark = len(self.state.pc)
+            self.state.pc.append(c)
+            try:
+                a = self.force(self.eval(node.body, fr))
+            finally:
+                del self.state.pc[mark:]
+            self.state.pc.append(z3.Not(c))
+            try:
+                b = self.force(self.eval(node.orelse, fr))
+            finally:
+                del self.state.pc[mark:]
             if isinstance(a, VInt) and isinstance(b, VInt):
                 return VInt(z3.If(c, a.t, b.t))
             if isinstance(a, VStr) and isinstance(b, VStr):
